@@ -153,10 +153,13 @@ class ProgressBarHandler:
                     )
                     progress_bar.set_description(f"{error_str}, terminating workers")
                     if self.worker_comms.exception_thrown():
-                        # Wait for exception traceback str to be set
+                        # Wait for exception traceback str to be set. An exception can also be thrown right at the moment
+                        # the main process is done and shuts this handler down (e.g., a worker that's kept alive dies). In
+                        # that case nobody is going to provide a traceback, so don't wait for it
                         with self.exception_traceback_str_set_condition:
-                            if self.exception_traceback_str is None:
-                                self.exception_traceback_str_set_condition.wait()
+                            while (self.exception_traceback_str is None and
+                                   not self.worker_comms.progress_bar_shutdown_requested()):
+                                self.exception_traceback_str_set_condition.wait(timeout=0.1)
                         self._send_dashboard_update(progress_bar, failed=True,
                                                     traceback_str=self.exception_traceback_str)
                     elif self.worker_comms.kill_signal_received():
